@@ -155,6 +155,9 @@ fn main() {
         if p["settings"]["legacy_api"] == json!(true) {
             bump("api:process_file", &mut classes);
         }
+        if p["settings"]["header_yacckind_conflict"] == json!(true) {
+            bump("yacckind:builder-against-header", &mut classes);
+        }
         if p["settings"]["stale_rule_ids_map"] == json!(true) {
             bump("api:stale_rule_ids_map", &mut classes);
         }
